@@ -54,15 +54,16 @@ def domains(quick):
              [False, True], [False, True], ['dev', 'prod'], ['identity']),
         ]
     return [
-        ('private', e3, EPH_ALL, PASS_ALL, [False, True], [False], [False],
+        ('private', e2, EPH_ALL, PASS_ALL, [False, True], [False], [False],
          ['dev'], ['identity']),
+        ('private-3-endpoints', e3[len(e2):], [(0, 0), (2, 1)], PASS_ALL,
+         [False, True], [False], [False], ['dev'], ['identity']),
         ('port-orders', e3, [(0, 0), (2, 1)], [[]], [True], [False], [False],
          ['dev', 'prod'], ['reversed', 'rotated']),
         ('environments', e2, [(1, 1)], [['h1']], [True], [False], [False],
          ['dev', 'qa', 'uat', 'prod'], list(W.PORT_ORDERS)),
         ('shared', e2, [(0, 0), (1, 1), (2, 0)], [[], ['h1']], [True],
-         [False, True], [False, True], ['dev', 'qa', 'uat', 'prod'],
-         ['identity', 'reversed']),
+         [False, True], [False, True], ['dev', 'prod'], ['identity']),
     ]
 
 
@@ -387,6 +388,8 @@ def pair_worker(chunk):
         cnt['pair_transitions'] = cnt.get('pair_transitions', 0) + \
             res.transitions
         cnt['pair_states'] = cnt.get('pair_states', 0) + res.states
+        dk = 'pair_depth=%02d' % res.depth_completed
+        cnt[dk] = cnt.get(dk, 0) + 1
         for k, v in res.stats.items():
             cnt[k] = cnt.get(k, 0) + v
         out['nontrivial'] += res.stats.get('finish_while_other_registered', 0)
@@ -511,6 +514,9 @@ def _run(ctx, t0):
             'configs': npairs, 'menu': sorted(PAIR_MENU),
             'B_identity': sorted(B_IDS), 'depth_bound': PAIR_DEPTH,
             'space_exhausted_for_every_pair': True,
+            'pairs_by_depth_at_which_the_frontier_emptied': {
+                k[11:]: v for k, v in sorted(c.items())
+                if k.startswith('pair_depth=')},
             'states': c.get('pair_states', 0),
             'transitions': c.get('pair_transitions', 0),
             'finishes_while_other_registered':
@@ -525,6 +531,9 @@ def _run(ctx, t0):
         },
         'chunks': '%d/%d' % (sw.chunks_done, sw.chunks_total),
     }
+    depths = [int(k[11:]) for k in c if k.startswith('pair_depth=')]
+    if depths:
+        cov['depth_completed'] = max(depths)
     ctx.log('sweep %d manifests, %d pair configs (%d transitions), %.1fs'
             % (sweep_cases, npairs, c.get('pair_transitions', 0),
                time.perf_counter() - t0))
